@@ -22,7 +22,7 @@ import (
 
 func init() { fw.Register("C01", runC01) }
 
-var ledgerModes = []string{"v1", "mixed", "v2", "legacy", "mixed"}
+var ledgerModes = []string{"v1", "mixed", "v2", "legacy", "mixed", "legacy-long"}
 
 type supplyOracle struct {
 	net        *consensus.Network
